@@ -525,12 +525,23 @@ Proof.
       (destruct (truthy np0); [eapply IHf; eauto|discriminate]).
 Qed.
 
-Lemma append_child_inv h0 r x t h' res :
-  Inv h0 r -> reach h0 r x -> (c <- build t ;; append_child x c) h0 = (h', res) -> ok_result res -> Inv h' r.
+(* `mk` allocates a fresh tree (freshly built, or a copy) *)
+Definition fresh_maker (mk : M id) (h0 : heap) : Prop :=
+  forall h1 res, mk h0 = (h1, res) ->
+  match res with
+  | R c => (length h0 <= c)%nat /\ (forall y, (y < length h0)%nat -> get h1 y = get h0 y) /\
+           exists hi, Sub h1 (length h0) hi c
+  | E e => model_err e
+  end.
+
+Lemma append_fresh_inv (mk : M id) h0 r x h' res :
+  fresh_maker mk h0 ->
+  Inv h0 r -> reach h0 r x -> (c <- mk ;; append_child x c) h0 = (h', res) -> ok_result res -> Inv h' r.
 Proof.
-  intros I0 Rx H OK.
-  destruct (build_spec t h0) as (h1 & c & B & Lc1 & Lc0 & Pre & SC & _).
-  unfold bind at 1 in H. rewrite B in H.
+  intros FM I0 Rx H OK.
+  unfold bind at 1 in H. destruct (mk h0) as (h1, [c|e]) eqn:B; pose proof (FM _ _ B) as FMB.
+  2:{ inversion H; subst. destruct OK, FMB; congruence. }
+  destruct FMB as (Lc0 & Pre & hi & SC).
   destruct (live_get _ _ _ I0 x Rx) as (nx & Gx).
   pose proof (get_lt _ _ _ Gx) as Lx.
   assert (Gx1 : get h1 x = Some nx) by (rewrite Pre; auto).
@@ -598,17 +609,95 @@ Proof.
       replace (rdf nc3) with (rdf nc); [reflexivity|]. rewrite Enc3. destruct nc; reflexivity.
 Qed.
 
+Lemma build_fresh t h0 : fresh_maker (build t) h0.
+Proof.
+  intros h1 res B. destruct (build_spec t h0) as (h1' & c & B' & Lc1 & Lc0 & Pre & SC & _).
+  rewrite B' in B. inversion B; subst. repeat split; eauto.
+Qed.
+
+Lemma append_child_inv h0 r x t h' res :
+  Inv h0 r -> reach h0 r x -> (c <- build t ;; append_child x c) h0 = (h', res) -> ok_result res -> Inv h' r.
+Proof. apply append_fresh_inv. apply build_fresh. Qed.
+
+(* ---- Loop.copy_tree_structure allocates a fresh tree ---------------------------------------------------------------------------------------- *)
+Lemma copy_tree_S f x par :
+  copy_tree (S f) x par =
+  (n <- getn x ;; ids <- mmap (fun c => nc <- getn c ;; copy_tree f c (parent nc)) (children n) ;;
+   new_loop par ids (rdf n) (wform n) (meas n)).
+Proof. reflexivity. Qed.
+
+Definition copy_post (h : heap) (h2 : heap) (res : result id) : Prop :=
+  match res with
+  | R c => S c = length h2 /\ (length h <= c)%nat /\ (forall y, (y < length h)%nat -> get h2 y = get h y) /\
+           Sub h2 (length h) (length h2) c
+  | E e => model_err e
+  end.
+
+Lemma copy_tree_spec : forall fuel x par h h2 res, copy_tree fuel x par h = (h2, res) -> copy_post h h2 res.
+Proof.
+  induction fuel as [|f IH]; intros x par h h2 res H.
+  - cbn in H. inversion H; subst. left; reflexivity.
+  - rewrite copy_tree_S in H. unfold bind at 1 in H. unfold getn at 1 in H.
+    destruct (get h x) as [n|]; [|inversion H; subst; right; reflexivity].
+    assert (MM : forall l h0 h1 r1, mmap (fun c => nc <- getn c ;; copy_tree f c (parent nc)) l h0 = (h1, r1) ->
+                 match r1 with
+                 | R ids => (length h0 <= length h1)%nat /\ (forall y, (y < length h0)%nat -> get h1 y = get h0 y) /\
+                            Subs h1 (length h0) (length h1) ids
+                 | E e => model_err e
+                 end).
+    { induction l as [|c l IHl]; intros h0 h1 r1 HM.
+      - cbn in HM. inversion HM; subst. repeat split; auto. constructor.
+      - cbn in HM. unfold bind at 1 in HM. unfold bind at 1 in HM. unfold getn at 1 in HM.
+        destruct (get h0 c) as [nc|]; [|inversion HM; subst; right; reflexivity].
+        destruct (copy_tree f c (parent nc) h0) as (ha, ra) eqn:CT.
+        pose proof (IH _ _ _ _ _ CT) as Pa.
+        destruct ra as [ca|e]; [|inversion HM; subst; exact Pa].
+        destruct Pa as (La & Lca & Oa & Sa).
+        unfold bind at 1 in HM.
+        destruct (mmap _ l ha) as (hb, rb) eqn:MB.
+        pose proof (IHl _ _ _ MB) as Pb.
+        destruct rb as [ids|e]; [|inversion HM; subst; exact Pb].
+        destruct Pb as (Lb & Ob & Sb).
+        unfold ret in HM. inversion HM; subst.
+        assert (length h0 <= length ha)%nat by lia.
+        split; [lia|]. split.
+        + intros y Ly. rewrite Ob by lia. auto.
+        + econstructor; [|exact Sb]. eapply Sub_frame; [|exact Sa]. intros y Ry. apply Ob. lia. }
+    unfold bind at 1 in H.
+    destruct (mmap _ (children n) h) as (h1, r1) eqn:MB.
+    pose proof (MM _ _ _ _ MB) as P1.
+    destruct r1 as [ids|e]; [|inversion H; subst; exact P1].
+    destruct P1 as (L1 & O1 & S1).
+    destruct (new_loop_Sub h1 (length h) par ids (rdf n) (wform n) (meas n) S1) as (h2' & NL & Len & Old & SB & _).
+    rewrite NL in H. inversion H; subst.
+    split; [lia|]. split; [lia|]. split.
+    + intros y Ly. rewrite Old by auto. auto.
+    + rewrite Len. exact SB.
+Qed.
+
+Lemma copy_fresh x np h0 : fresh_maker (copy_tree_structure x np) h0.
+Proof.
+  intros h1 res H. unfold copy_tree_structure, bind, getn in H.
+  destruct (get h0 x) as [n|]; [|inversion H; subst; right; reflexivity].
+  rewrite fueled_eq in H. pose proof (copy_tree_spec _ _ _ _ _ _ H) as P.
+  destruct res as [c|e]; [|exact P]. destruct P as (L1 & L2 & O & S). repeat split; eauto.
+Qed.
+
 (* ---- histories over the operations proved so far (now including append_child) ------------------------------------------------------------- *)
 Definition proved_op' (o : op) : bool :=
-  proved_op o || match o with OAppend _ _ => true | _ => false end.
+  proved_op o || match o with OAppend _ _ | OCopyAppend _ _ _ => true | _ => false end.
 
 Lemma step_partial' s o s' out :
   sInv s -> proved_op' o = true -> step s o = (s', out) -> out_ok out -> sInv s'.
 Proof.
   intros I PO H OK. unfold proved_op' in PO. apply orb_prop in PO as [PO|PO]; [eapply step_partial; eauto|].
-  destruct o; try discriminate. cbn in H.
-  eapply run_at_inv; eauto. intros x h' res Rx Hk Okr. cbv beta in Hk.
-  eapply append_child_inv; [exact I|exact Rx|exact Hk|exact Okr].
+  destruct o; try discriminate; cbn in H.
+  - eapply run_at_inv; eauto. intros x h' res Rx Hk Okr. cbv beta in Hk.
+    eapply append_child_inv; [exact I|exact Rx|exact Hk|exact Okr].
+  - destruct (resolve (st_heap s) (st_root s) dst) as [d|] eqn:Rd; [|inversion H; subst; auto].
+    apply resolve_reach in Rd.
+    eapply run_at_inv; eauto. intros x h' res Rx Hk Okr. cbv beta in Hk.
+    eapply append_fresh_inv; [apply copy_fresh|exact I|exact Rd|exact Hk|exact Okr].
 Qed.
 
 Lemma history_partial' : forall ops s,
